@@ -6,6 +6,7 @@
 -/
 import CppUtil.Core.Basic
 import CppUtil.Monitor.ThreadMon
+import CppUtil.Monitor.OptMon
 
 namespace CppUtil.Monitor
 open CppUtil
@@ -33,6 +34,7 @@ structure MonSt where
   maxLiveNodes : Int := 0
   nFifoChecks : Nat := 0
   th : ThreadMon := {}
+  opt : OptMon := {}
   /-- first violation found, if any -/
   bad : Option String := none
   /-- counters for the evidence -/
